@@ -248,6 +248,41 @@ theorem brace_charseq_step_positive (i : Int) : 0 < stepU32 (stepOf i) := by
   have := stepOf_pos i
   unfold stepU32; split <;> omega
 
+/-! ## `&` in completion filters -/
+
+/-- **Index discipline of `replace_unescaped_ampersands`.**  For every filter pattern and every word
+(any Unicode, any length, also the empty word and words that contain `&` themselves) each
+`replace_range(i..=i, word)` is applied at an offset that is inside the string *it is applied to*
+and on a character boundary of it — so no call panics — and the result is the pattern with every
+unescaped `&` replaced by the word.  The offsets come from the original pattern; they stay valid
+because they are applied from the last to the first, which leaves the text before each offset
+untouched.  (Applying them first-to-last shifts every later offset by `len(word) - 1`.) -/
+theorem ampersand_replacement_indices_valid (pattern word : Str) :
+    replaceAmpersands pattern word = .ok (substAmp pattern false word) := by
+  have h := applyRev_ampOffsets word pattern [] false
+  simpa [replaceAmpersands, utf8Len] using h
+
+/-- the substitution is the identity on a filter without `&` -/
+theorem ampersand_free_filter_unchanged (pattern word : Str) (h : '&' ∉ pattern) :
+    substAmp pattern false word = pattern := by
+  suffices ∀ esc, substAmp pattern esc word = pattern from this false
+  induction pattern with
+  | nil => intro esc; rfl
+  | cons c cs ih =>
+    intro esc
+    have hc : c ≠ '&' := fun hc => h (by simp [hc])
+    have hcs : '&' ∉ cs := fun hm => h (List.mem_cons_of_mem _ hm)
+    unfold substAmp
+    simp only
+    rw [if_neg (by simp [hc]), ih hcs]
+
+example : replaceAmpersands "&&".toList "éé".toList = .ok "éééé".toList := ampersand_replacement_indices_valid _ _
+example : replaceAmpersands "a\\&&".toList [] = .ok "a\\&".toList := by
+  rw [ampersand_replacement_indices_valid]; rfl
+/-- what goes wrong when the discipline is broken: the second `&` of `&&` sits at byte 1 of the
+pattern, but after `é` (2 bytes) replaced the first one, byte 1 is inside that `é` -/
+example : replaceRange1 "é&".toList 1 "é".toList = .error .sliceRange := by rfl
+
 /-! ## `history N` -/
 
 /-- `history N` prints `min N count` entries, for every N — formerly `item_count - max_entries`
